@@ -195,6 +195,12 @@ def gen(ctx):
     for cont, ch, mp in (("wavex", 2, (2, 3)), ("rf64", 2, (2, 3)), ("aiff", 2, (2, 3)), ("caf", 2, (2, 3)), ("wavex", 1, (4,)), ("caf", 1, (1,)), ("aiff", 1, (1,)),
                          ("wavex", 6, (2, 3, 4, 7, 5, 6)), ("caf", 6, (2, 3, 4, 7, 5, 6)), ("wav", 2, (2, 3)), ("caf", 2, (3, 4)), ("wavex", 2, (0, 1)), ("wavex", 2, (2, 99))):
         add("chmap-%s-%s" % (cont, "_".join(map(str, mp))), "chmap", cont, [chmap_cmd(mp), S(1, b"T")], ch=ch)
+    # 6b. a second channel map: one the container takes replaces the first, one it refuses (no layout tag / channel mask, or an invalid
+    #     code) leaves the first in force
+    for cont in ("caf", "aiff", "wavex", "rf64"):
+        for k, (first, second) in enumerate((((2, 3), (3, 2)), ((2, 3), (9, 10)), ((2, 3), (2, 99)), ((9, 10), (3, 2)), ((3, 2), (2, 3)), ((2, 3), (2, 3)))):
+            add("chmap2-%s-%d" % (cont, k), "chmap", cont, [chmap_cmd(first), S(4, b"A"), chmap_cmd(second), S(1, b"T")], ch=2)
+        add("chmap2-%s-6ch" % cont, "chmap", cont, [chmap_cmd((2, 3, 4, 7, 5, 6)), chmap_cmd((7, 6, 5, 4, 3, 2)), S(1, b"T")], ch=6)
     # 7. several items in one header, random order
     for rep in range(120 if not thorough else 5000):
         cont = rng.choice(["wav", "wav", "wavex", "rf64", "rifx", "aiff", "caf"])
